@@ -210,11 +210,11 @@ PROPS["C17"] = {
     "title": "Fixed-size DNA strings (Lmer) behave as strings",
     "kani": lambda tier: lmer(["l_new", "l_get", "l_set_mut", "l_set_slice_mut", "l_rc", "l_rc_empty", "l_eq_hash", "l_wf_canonical", "l_from_slice"],
                               tier, LMER_KS_ALL if tier == "thorough" else LMER_KS_QUICK) + ["vmer::verif::l_block"],
-    "verus": [],
+    "verus": [("msppiece", r"^VmerFromSlice::from_slice$")],
     "bounded": lambda tier: [],
     "design_ref": "DESIGN.md §6 C17",
     "undecided": [],
-    "level_text": "For each capacity N (quick 1..3, thorough 1..6) and a fully symbolic well-formed storage: new/len/get/set_mut/set_slice_mut (frame over every raw lane incl. the length byte, runs crossing word boundaries and touching the last word), rc, get_kmer, ==/Hash are proved against the plain-string spec (Kani, complete per N; loops bounded by N with unwinding assertions).",
+    "level_text": "For each capacity N (quick 1..3, thorough 1..6) and a fully symbolic well-formed storage: new/len/get/set_mut/set_slice_mut (frame over every raw lane incl. the length byte, runs crossing word boundaries and touching the last word), rc, get_kmer, ==/Hash are proved against the plain-string spec (Kani, complete per N; loops bounded by N with unwinding assertions). Vmer::from_slice's real default body (shared by Lmer and every other Vmer) is additionally proved for EVERY slice length against the trait-level new / set_mut contracts (Verus unit msppiece, rule R20): the result spells exactly the slice.",
     "level_note": "Trusted: Kani/CBMC. Preconditions: len <= max_len, bases < 4, 1 <= n <= 32. l_from_slice is bounded (slice length <= 12).",
 }
 
@@ -371,15 +371,15 @@ PROPS["C08"] = {
     "title": "Shard assignment is a pure, strand-symmetric function of the k-mer",
     "kani": lambda tier: kfam(["k_min_rc", "k_to_u64", "k_rc"], tier, 2, 8) + exts(["x_from_slice_bounds"]) + lmer(["l_from_slice"], tier),
     "verus": [("scan", r"^(Scanner::(scan|lemma_same_bucket|lemma_same_bucket_rc|lemma_min_over_kmer|lemma_result|lemma_iv_mid|lemma_iv_last|lemma_pair)|Exts::from_slice_bounds|lemma_sub_window|lemma_sub_window_rc|lemma_flank_bits)$"),
-              ("mspscore", None), ("msppiece", r"^piece_of$|^MspInterval::bucket$"), ("extsdna", r"^Exts::from_dna_string$|^lemma_flank_bits$")],
+              ("mspscore", None), ("msppiece", r"^piece_of$|^MspInterval::bucket$|^VmerFromSlice::from_slice$"), ("extsdna", r"^Exts::from_dna_string$|^lemma_flank_bits$")],
     "bounded": lambda tier: [("msp::verif::m_msp_sequence_short", "msp_sequence on reads of exactly k = 3, and k - 1, bases (P = Kmer2, DnaBytes pieces)")],
     "design_ref": "DESIGN.md §6 C08",
     "undecided": [
-        "msp_sequence as a whole (unwrap_or_else, into_iter().map().collect()): its three ingredients are under contract separately - the score closure (unit mspscore), Scanner::scan (C07) and the REAL body of the piece closure (unit msppiece, rule R15: bucket = the interval's bucket, piece = the exact substring at (start, len) given Vmer::from_slice's assumed contract, boundary extensions = the read's flanking bases) - but the iterator pipeline that applies the piece closure to every interval is only covered by a bounded stand-in on reads of k and k-1 bases (6 bases already exhaust CBMC)",
+        "msp_sequence as a whole (unwrap_or_else, into_iter().map().collect()): its three ingredients are under contract separately - the score closure (unit mspscore), Scanner::scan (C07) and the REAL body of the piece closure (unit msppiece, rule R15: bucket = the interval's bucket, piece = the exact substring at (start, len) - Vmer::from_slice's REAL default body is proved in the same unit (rule R20 desugars its enumerate) against the trait-level new / set_mut contracts -, boundary extensions = the read's flanking bases) - but the iterator pipeline that applies the piece closure to every interval is only covered by a bounded stand-in on reads of k and k-1 bases (6 bases already exhaust CBMC)",
         "the glue between the pieces (msp_sequence passes exactly this closure to Scanner::new; the default permutation 0..4^p is a permutation) is by inspection, not a discharged obligation"],
     "trust": VERUS_TRUST + [SEAM_NOTE],
     "level_text": "Proved as lemmas over the verified contract of the real Scanner::scan (C07): for two scans - of any two reads - whose score functions agree and identify p-mers up to a class, two occurrences of the same k-mer (lemma_same_bucket) or an occurrence and a reverse-complement occurrence under a strand-symmetric score (lemma_same_bucket_rc) receive minimizers of the same class, hence the same bucket id (bucket = rank of the canonical minimizer; min_rc / to_u64 proved by Kani for all p-mer values). Exts::from_slice_bounds and Exts::from_dna_string are proved to return exactly the read's two flanking bases and none at a read end, for every length (Verus, unbounded, real bodies). The REAL score closure of msp_sequence (statement extracted by rule R15) is proved to compute perm[rank x] resp. min(perm[rank x], perm[rank rc x]), and two lemmas show that such a score over an injective table is strand symmetric and identifies p-mers up to reverse complement - the hypotheses of the bucket lemmas. The REAL body of msp_sequence's piece closure (rule R15) is proved to turn an interval into (its bucket, the read's flanking bases as boundary extensions, the exact substring at (start, len)).",
-    "level_note": "Partial claim (see undecided_clauses): the msp_sequence iterator pipeline is not under contract; Vmer::from_slice (default method, enumerate) is an assumed contract with bounded Kani stand-ins. Trusted: Verus/Z3, extractor rules, the V<->K seam.",
+    "level_note": "Partial claim (see undecided_clauses): the msp_sequence iterator pipeline is not under contract; Vmer::new / set_mut are the trait-level seam (Kani families l_new / l_set_mut per Lmer type). Trusted: Verus/Z3, extractor rules, the V<->K seam.",
 }
 
 PAIRED_KANI = {
@@ -421,7 +421,7 @@ PROPS["C20"] = {
     "title": "Exports and persistence are faithful",
     "kani": lambda tier: [],
     "verus": [("gfalinks", r"^(gfa_links|gfa_s_line|DebruijnGraph::gfa_all_nodes|DnaStringSlice::to_dna_string)$"),
-              ("jsonlinks", r"^DebruijnGraph::(json_links_step|json_last_with_links|json_nodes_step)$|^Node::edge_json_step$")],
+              ("jsonlinks", r"^DebruijnGraph::(json_links_step|json_last_with_links|json_nodes_step)$|^Node::(edge_json_step|edges_json_group)$")],
     "bounded": lambda tier: [],
     "design_ref": "DESIGN.md §6 C20",
     "undecided": [
@@ -431,7 +431,7 @@ PROPS["C20"] = {
     "trust": VERUS_TRUST + GRAPH_TRUST + [SEAM_NOTE,
         "core::fmt renders an integer / a string slice argument of writeln! as itself, one line per call (rule R19's line log)",
         "Node::l_edges / r_edges are functions of the graph and the node (edges_of); their relational contract is proved in unit nodesall"],
-    "level_text": "Partial claim, two clauses. (1) JSON export, separators of the \"links\" array: one trip of the links loop of the real DebruijnGraph::to_json_rest (rule R15 loop body; Node::edges_to_json assumed to write the node's links as one group and to say whether it wrote) is proved to follow a node's group with a separator EXACTLY when a later node contributes a group too, and the preceding loop (R15) to compute the last node that has links - so the array has no leading, doubled or trailing comma for any graph, with or without links on the last node (Verus, unbounded). Also: one trip of the nodes loop (the node's object, then a separator exactly when another node follows: every node once, in id order) and one trip of the loop of Node::edges_to_json (the link object carries the right source, target and arrival side 'L'/'R', followed by a comma exactly when another edge follows). (2) GFA export: the node loop of write_gfa exports every node exactly once in id order (given node_to_gfa's assumed whole-function behaviour); the S line of a node carries its id and its sequence rendered as ACGT text (to_dna_string proved); and the link clause, per node: the two loops of the real DebruijnGraph::node_to_gfa that write the L lines (rule R15 statement range) are proved to write, in order, exactly one line `L u - v t (K-1)M` for every left edge of u whose target id is >= u and exactly one line `L u + v t (K-1)M` for every right edge whose target id is > u OR which is a right-side hairpin (target u, arriving at u's right end), with t = '+' when the link arrives at v's left end and '-' at its right end - the canonical-emitter rule under which every adjacency, including self-links on either side, is listed exactly once (Verus, unbounded).",
+    "level_text": "Partial claim, two clauses. (1) JSON export, separators of the \"links\" array: one trip of the links loop of the real DebruijnGraph::to_json_rest (rule R15 loop body; the whole body of Node::edges_to_json is proved separately - edges_json_group, rules R20 + R17 -: one link object per right-going edge with the right source, target and arrival side, commas exactly between them, and the result says whether anything was written) is proved to follow a node's group with a separator EXACTLY when a later node contributes a group too, and the preceding loop (R15) to compute the last node that has links - so the array has no leading, doubled or trailing comma for any graph, with or without links on the last node (Verus, unbounded). Also: one trip of the nodes loop (the node's object, then a separator exactly when another node follows: every node once, in id order) and one trip of the loop of Node::edges_to_json (the link object carries the right source, target and arrival side 'L'/'R', followed by a comma exactly when another edge follows). (2) GFA export: the node loop of write_gfa exports every node exactly once in id order (given node_to_gfa's assumed whole-function behaviour); the S line of a node carries its id and its sequence rendered as ACGT text (to_dna_string proved); and the link clause, per node: the two loops of the real DebruijnGraph::node_to_gfa that write the L lines (rule R15 statement range) are proved to write, in order, exactly one line `L u - v t (K-1)M` for every left edge of u whose target id is >= u and exactly one line `L u + v t (K-1)M` for every right edge whose target id is > u OR which is a right-side hairpin (target u, arriving at u's right end), with t = '+' when the link arrives at v's left end and '-' at its right end - the canonical-emitter rule under which every adjacency, including self-links on either side, is listed exactly once (Verus, unbounded).",
     "level_note": "PARTIAL: only the L lines of the GFA export and the separators of the JSON links array; serde, the rest of the JSON export, S lines and byte-level well-formedness are not decided (see undecided_clauses). Two genuine defects were found by these obligations and repaired (known_findings.json F4, F5).",
 }
 
